@@ -151,6 +151,79 @@ fn check_desc(rep: &Report, c: &DescCase, thorough: bool, cen: &mut Census) {
     }
 }
 
+/// Node-level lemma behind the non-malleable choice rules: a (dis)satisfaction that the satisfier
+/// marks `has_sig` must contain a signature. Every fragment up to the bound x every world x
+/// root_has_sig in {false, true}, through the satisfier hook (non-malleable mode).
+fn has_sig_lemma<Ctx: crate::terms::Cx>(rep: &Report, ctxname: &'static str, te: &crate::terms::Terms<Ctx>, n: usize, tap: bool, form: KeyForm, thorough: bool) -> Census {
+    use crate::ast::{build, walk};
+    use crate::keys::DefEnv;
+    use miniscript::miniscript::satisfy::{Placeholder, Satisfaction, Witness};
+    use miniscript::DefiniteDescriptorKey;
+    let all: Vec<crate::ast::T> = te.levels.iter().take(n + 1).flat_map(|l| l.iter()).map(|m| walk(m).relabel_distinct()).collect();
+    all.par_iter()
+        .fold(Census::new, |mut cen, t| {
+            let env = DefEnv { form, with_origin: true };
+            let ms = match build::<DefiniteDescriptorKey, Ctx>(t, &env) {
+                Ok(m) => m,
+                Err(_) => return cen,
+            };
+            let script = ms.encode().into_bytes();
+            use bitcoin::hashes::Hash;
+            let lh = if tap { Some(bitcoin::taproot::TapLeafHash::from_byte_array(crate::rsm::tapleaf_hash(0xc0, &script))) } else { None };
+            let sign = if tap {
+                crate::world::SignCtx::Taproot { merkle_root: None, internal_x: [0; 32] }
+            } else {
+                crate::world::SignCtx::Ecdsa { script_code: script.clone(), sigver: crate::rsm::SigVer::WitnessV0 }
+            };
+            let mut keys = t.keys();
+            keys.sort();
+            keys.dedup();
+            let mut hl: Vec<String> = t.hashes().into_iter().map(|x| x.1).collect();
+            hl.sort();
+            hl.dedup();
+            let spk = bitcoin::ScriptBuf::from_bytes([vec![0x51u8, 0x20], vec![7u8; 32]].concat());
+            let tsx = t.sexpr();
+            for w in worlds(&keys, &hl, &t.afters(), &t.olders(), thorough) {
+                let spend = make_spend(spk.clone(), w.locktime, w.sequence);
+                let sat = WorldSat { world: &w, spend: &spend, sign: &sign, schnorr_all: false, lie_locks: false, cap: crate::world::SignCap::All };
+                for root_has_sig in [false, true] {
+                    let r = guard(|| Satisfaction::<Placeholder<DefiniteDescriptorKey>>::verif_sat_dissat(&ms, &sat, false, root_has_sig, lh));
+                    let (s, d) = match r {
+                        Ok(x) => x,
+                        Err(_) => continue,
+                    };
+                    for (which, x) in [("satisfaction", &s), ("dissatisfaction", &d)] {
+                        bump(&mut cen, "has_sig_lemma_checks");
+                        if let Witness::Stack(items) = &x.stack {
+                            let any_sig = items.iter().any(|p| {
+                                matches!(p, Placeholder::EcdsaSigPk(_) | Placeholder::EcdsaSigPkHash(_) | Placeholder::SchnorrSigPk(..) | Placeholder::SchnorrSigPkHash(..))
+                            });
+                            if x.has_sig {
+                                bump(&mut cen, "has_sig_claims");
+                            }
+                            if x.has_sig && !any_sig {
+                                rep.violation(Violation {
+                                    key: format!("C03|has_sig-without-signature|{}|{}|{}|rhs={}|{}", ctxname, which, tsx, root_has_sig, w.short()),
+                                    class: format!("has_sig-without-signature-{}-{}", ctxname, t.tag()),
+                                    what: format!("the node-level {} is marked has_sig but contains no signature: a third party can build it, the non-malleable choice rules treat it as safe", which),
+                                    case: json!({"ctx": ctxname, "fragment": ms.to_string(), "model": tsx, "world": w.json(), "root_has_sig": root_has_sig,
+                                        "template": items.iter().map(|p| p.to_string()).collect::<Vec<_>>()}),
+                                });
+                            }
+                        }
+                    }
+                }
+            }
+            cen
+        })
+        .reduce(Census::new, |mut a, b| {
+            for (k, v) in b {
+                *a.entry(k).or_insert(0) += v;
+            }
+            a
+        })
+}
+
 pub fn run(tier: Tier) -> i32 {
     let rep = Report::new("C03", tier);
     match crate::kat::run_kats() {
@@ -181,6 +254,9 @@ pub fn run(tier: Tier) -> i32 {
             a
         });
     rep.merge_counts(&cen);
+    let nf = b.n_seg.min(u.segwit.levels.len() - 1);
+    rep.merge_counts(&has_sig_lemma::<miniscript::Segwitv0>(&rep, "segwitv0", &u.segwit, nf, false, KeyForm::Compressed, thorough));
+    rep.merge_counts(&has_sig_lemma::<miniscript::Tap>(&rep, "tap", &u.tap, b.n_tap.min(u.tap.levels.len() - 1), true, KeyForm::XOnly, thorough));
     if let Some(d) = models.iter().rev().find(|d| matches!(d, D::Wsh(_))) {
         rep.sample(json!({"descriptor_model": d.sexpr()}));
     }
@@ -195,7 +271,7 @@ pub fn run(tier: Tier) -> i32 {
         rep.get("original_refound_by_explorer"),
         rep.get("evaluations"),
         rep.get("cases_fully_searched"),
-        "all sane descriptors from the C01 enumeration x all worlds in which the non-malleable satisfier succeeds; ALL witnesses over the adversary alphabet are explored on every script of the output (every tap leaf); any accepted witness other than the original is a violation. non-trivial = cases whose adversarial search completed",
+        "all sane descriptors from the C01 enumeration x all worlds in which the non-malleable satisfier succeeds; ALL witnesses over the adversary alphabet are explored on every script of the output (every tap leaf); any accepted witness other than the original is a violation; node level: every fragment x world x root_has_sig through the satisfier hook, a (dis)satisfaction marked has_sig contains a signature. non-trivial = cases whose adversarial search completed",
         true,
     )
 }
